@@ -267,5 +267,201 @@ func init() {
 		fmt.Fprintf(&e.out, "def roundCpusetModeCalls : List String := %s\n", q(cpusetCalls))
 		fmt.Fprintf(&e.out, "def roundDisabledCalls : List String := %s\n", q(disabledCalls))
 		fmt.Fprintf(&e.out, "def roundBudgetArgs : List String := %s\n", q(budgetArgs))
+
+		// ---- which writes go through the executor's cache: every call on r.executor in the package, as
+		// "<enclosing method>:<executor method>(<first argument>)", in source order of the methods the model follows
+		var execCalls []string
+		for _, fn := range []string{"writeBECgroupsCPUSet", "adjustByCfsQuota", "recoverCFSQuotaIfNeed"} {
+			fd := e.funcDecl(d, "CPUSuppress", fn)
+			if fd == nil || fd.Body == nil {
+				e.fail("%s not found", fn)
+				continue
+			}
+			ast.Inspect(fd.Body, func(n ast.Node) bool {
+				if c, ok := n.(*ast.CallExpr); ok {
+					if f := norm(c.Fun); strings.HasPrefix(f, "r.executor.") && len(c.Args) > 0 {
+						execCalls = append(execCalls, fn+":"+strings.TrimPrefix(f, "r.executor.")+"("+norm(c.Args[0])+")")
+					}
+				}
+				return true
+			})
+		}
+		fmt.Fprintf(&e.out, "def executorCalls : List String := %s\n", q(execCalls))
+		// any other user of r.executor in the package (a new write path the model does not know)
+		otherExec := 0
+		for _, f := range e.dir(d) {
+			for _, dd := range f.Decls {
+				fd, ok := dd.(*ast.FuncDecl)
+				if !ok || fd.Body == nil {
+					continue
+				}
+				switch fd.Name.Name {
+				case "writeBECgroupsCPUSet", "adjustByCfsQuota", "recoverCFSQuotaIfNeed", "init":
+					continue
+				}
+				ast.Inspect(fd.Body, func(n ast.Node) bool {
+					if c, ok := n.(*ast.CallExpr); ok && strings.HasPrefix(norm(c.Fun), "r.executor.") {
+						otherExec++
+					}
+					return true
+				})
+			}
+		}
+		fmt.Fprintf(&e.out, "def otherExecutorCalls : Nat := %d\n", otherExec)
+
+		// ---- resourceexecutor.updateByCache: inside `if e.needUpdate(updater) {` the statements are, in this order,
+		// updater.update(), an `if` on the ignored error ending in return, an `if err != nil` ending in return, and only then
+		// the single ResourceCache.SetDefault; the direct update() never touches the cache; Update(false, ..) goes to update().
+		xd := "pkg/koordlet/resourceexecutor"
+		setAfterWrite, setCalls, updateTouchesCache, needUpdateGuards := false, 0, true, false
+		endsInReturn := func(b *ast.BlockStmt) bool {
+			if b == nil || len(b.List) == 0 {
+				return false
+			}
+			_, ok := b.List[len(b.List)-1].(*ast.ReturnStmt)
+			return ok
+		}
+		if fd := e.funcDecl(xd, "ResourceUpdateExecutorImpl", "updateByCache"); fd == nil || fd.Body == nil {
+			e.fail("updateByCache not found")
+		} else {
+			ast.Inspect(fd.Body, func(n ast.Node) bool {
+				if c, ok := n.(*ast.CallExpr); ok && strings.HasSuffix(norm(c.Fun), "ResourceCache.SetDefault") || ok && strings.HasSuffix(norm(c.Fun), "ResourceCache.Set") {
+					setCalls++
+				}
+				return true
+			})
+			for _, st := range fd.Body.List {
+				ifs, ok := st.(*ast.IfStmt)
+				if !ok || norm(ifs.Cond) != "e.needUpdate(updater)" {
+					continue
+				}
+				needUpdateGuards = true
+				posUpdate, posIgnored, posErr, posSet := -1, -1, -1, -1
+				for k, s2 := range ifs.Body.List {
+					src := ""
+					switch v := s2.(type) {
+					case *ast.AssignStmt:
+						if len(v.Rhs) == 1 {
+							src = norm(v.Rhs[0])
+						}
+						if src == "updater.update()" && posUpdate < 0 {
+							posUpdate = k
+						}
+						if strings.Contains(src, "ResourceCache.SetDefault") && posSet < 0 {
+							posSet = k
+						}
+					case *ast.IfStmt:
+						c := norm(v.Cond)
+						if c == "err!=nil&&e.isUpdateErrIgnored(err)" && endsInReturn(v.Body) && v.Else == nil && posIgnored < 0 {
+							posIgnored = k
+						}
+						if c == "err!=nil" && endsInReturn(v.Body) && v.Else == nil && posErr < 0 && posSet < 0 {
+							posErr = k
+						}
+					}
+				}
+				setAfterWrite = posUpdate >= 0 && posUpdate < posIgnored && posIgnored < posErr && posErr < posSet
+			}
+		}
+		if fd := e.funcDecl(xd, "ResourceUpdateExecutorImpl", "update"); fd == nil || fd.Body == nil {
+			e.fail("executor update not found")
+		} else {
+			updateTouchesCache = false
+			ast.Inspect(fd.Body, func(n ast.Node) bool {
+				if se, ok := n.(*ast.SelectorExpr); ok && se.Sel.Name == "ResourceCache" {
+					updateTouchesCache = true
+				}
+				return true
+			})
+		}
+		fmt.Fprintf(&e.out, "def cacheSetAfterSuccessfulWriteOnly : Bool := %v\n", setAfterWrite && needUpdateGuards)
+		fmt.Fprintf(&e.out, "def cacheSetCallsInUpdateByCache : Nat := %d\n", setCalls)
+		fmt.Fprintf(&e.out, "def directUpdateTouchesCache : Bool := %v\n", updateTouchesCache)
+		// Update / UpdateBatch dispatch on the flag: cacheable -> updateByCache, else -> update
+		dispatch := func(fn string) string {
+			fd := e.funcDecl(xd, "ResourceUpdateExecutorImpl", fn)
+			if fd == nil || fd.Body == nil {
+				e.fail("executor %s not found", fn)
+				return "?"
+			}
+			var thenCalls, elseCalls []string
+			collect := func(b ast.Node, skip ast.Node) []string {
+				var out []string
+				ast.Inspect(b, func(n ast.Node) bool {
+					if n == skip {
+						return false
+					}
+					if c, ok := n.(*ast.CallExpr); ok {
+						if f := norm(c.Fun); f == "e.updateByCache" || f == "e.update" {
+							out = append(out, strings.TrimPrefix(f, "e."))
+						}
+					}
+					return true
+				})
+				return out
+			}
+			for _, st := range fd.Body.List {
+				if ifs, ok := st.(*ast.IfStmt); ok && norm(ifs.Cond) == "cacheable" {
+					thenCalls = collect(ifs.Body, nil)
+					if ifs.Else != nil {
+						elseCalls = collect(ifs.Else, nil)
+					} else {
+						elseCalls = collect(fd.Body, ifs)
+					}
+				}
+			}
+			return strings.Join(thenCalls, ",") + "|" + strings.Join(elseCalls, ",")
+		}
+		fmt.Fprintf(&e.out, "def executorUpdateDispatch : String := %s\n", leanStr(dispatch("Update")))
+		fmt.Fprintf(&e.out, "def executorUpdateBatchDispatch : String := %s\n", leanStr(dispatch("UpdateBatch")))
+		// needUpdate: true without an entry, on another value, on an entry older than the force-update interval
+		nuReturns := ""
+		if fd := e.funcDecl(xd, "ResourceUpdateExecutorImpl", "needUpdate"); fd == nil || fd.Body == nil {
+			e.fail("needUpdate not found")
+		} else {
+			for _, st := range fd.Body.List {
+				switch v := st.(type) {
+				case *ast.IfStmt:
+					c := norm(v.Cond)
+					ret := "?"
+					if len(v.Body.List) > 0 {
+						if rs, ok := v.Body.List[len(v.Body.List)-1].(*ast.ReturnStmt); ok && len(rs.Results) == 1 {
+							ret = norm(rs.Results[0])
+						}
+					}
+					switch {
+					case c == "preResource==nil":
+						nuReturns += "noentry:" + ret + ";"
+					case c == "updater.Value()!=preResourceUpdater.Value()":
+						nuReturns += "othervalue:" + ret + ";"
+					case strings.HasPrefix(c, "time.Since(preResourceUpdater.GetLastUpdateTimestamp())>") && strings.Contains(c, "ResourceForceUpdateSeconds"):
+						nuReturns += "stale:" + ret + ";"
+					default:
+						nuReturns += "other(" + c + "):" + ret + ";"
+					}
+				case *ast.ReturnStmt:
+					if len(v.Results) == 1 {
+						nuReturns += "else:" + norm(v.Results[0])
+					}
+				}
+			}
+		}
+		fmt.Fprintf(&e.out, "def needUpdateRules : String := %s\n", leanStr(nuReturns))
+		// the force-update interval of NewDefaultConfig (the harness ages cache entries by 61 s)
+		force := int64(-1)
+		if fd := e.funcDecl(xd, "", "NewDefaultConfig"); fd != nil && fd.Body != nil {
+			ast.Inspect(fd.Body, func(n ast.Node) bool {
+				if kv, ok := n.(*ast.KeyValueExpr); ok && norm(kv.Key) == "ResourceForceUpdateSeconds" {
+					if v, ok := e.evalInt(xd, kv.Value, 0); ok {
+						force = v
+					}
+				}
+				return true
+			})
+		}
+		if force < 0 {
+			e.fail("ResourceForceUpdateSeconds default not found")
+		}
+		fmt.Fprintf(&e.out, "def resourceForceUpdateSeconds : Int := %d\n", force)
 	}
 }
